@@ -140,6 +140,7 @@ class Specs:
         self.library = {}
         self.ghosts = {}       # (fn qual, statement source text) -> [(ghost name, expression text)]
         self._inferred = {}    # (class, field) -> type inferred for fields without a shape
+        self.header_mismatches = set()
 
     # ------------------------------------------------------------ registration API
     def shape(self, cls, _final=False, _opaque=False, **fields):
@@ -264,8 +265,10 @@ class Specs:
             return None
         hdr = execu._loop_header(node)
         if sp.header is not None and sp.header.strip() != hdr.strip():
-            raise Unsupported(f'loop {ordinal} of {fi.qualname}: header is `{hdr}`, the invariant was written for '
-                              f'`{sp.header}`')
+            # the loop header changed since the invariant was written: the invariant is still tried (it is
+            # checked, not assumed); the mismatch is reported with the result
+            self.header_mismatches.add(f'loop {ordinal} of {fi.qualname}: header is `{hdr}`, the invariant was written '
+                                       f'for `{sp.header}`')
         return sp
 
     def literal_elem_type(self, fr, node, vs):
